@@ -195,14 +195,14 @@ CHECKS = {
     "C06": {
         "level": "exploration",
         "design_ref": "DESIGN.md section 5/C06",
-        "engine": "sequential driver + E1 clock + paused tokio runtime",
+        "engine": "sequential driver + E1 clock + paused tokio runtime + E2 (stall gate; scheduler for the race rows)",
         "technique": "deterministic simulation: seeded histories of writes/deletes/overwrites/drains followed by searches through every entry point (timed variant on a paused runtime with 0/1/large permits and with the slow-tier fault: the hot and/or cold tier's blocking search is parked by the E2 stall gate, the paused clock is advanced past the tier's timeout, the engine takes its timeout branch, breakers open after three and half-open after a simulated minute), every response judged against brute-force f64 distances on a reference model",
         "rule": "seeded histories (4-34 steps quick, 4-70 thorough; a quarter start with a 90% tombstone prefix, a sixth of the others with a crowded neighbourhood: 3-14 superseded versions of one document next to a pooled query, a freshly acknowledged nearest live document that is re-written 2/3 of the time with the same vector, then a k=1/2 search; a sixth of later writes to a known id re-use its vector) over TieredEngine x metric x dimension {1,3,4,7,8,9,15,16,17,31,32,33,40,48,64,80,100,112} x strategies x query-cache capacity x hot limits x "
                 "timeouts {50,10000}/{1000,10000} ms x permits {0,1,1000}; a twelfth of the searches are timed searches with a slow hot tier, slow cold tier or both (a third of those as a burst of three, the breaker threshold); drift steps plant 1-3 recent-write-tier entries without canonical record / with a diverging vector / with a vector the index refuses, mostly drained at once; searches via knn_search_with_ef_detailed_scoped (with/without ef), the batch variant, the cold backend (single/batch) and "
                 "knn_search_with_timeouts_with_ef_scoped; k in {1,2,3,4,5,10,100,1000}; vectors exactly normalised, far from normalised and inside the [0.98,1.02] band; queries repeated to hit the result cache. "
                 "Every response: <= k results, distinct ids, all in the model now, non-decreasing distance, reported distance inside the interval spanned by the cold-tier and hot-tier formulas on the stored vector "
                 "(+- 3e-5 + 3e-4 |d|; cache hits are judged against the query of the entry that was served); every acknowledged write resident in the recent-write tier before the search that is strictly closer than the k-th result is present "
-                "(judged for timed responses too unless the engine's own counters report a timeout, an open breaker, worker/queue saturation or a partial result for that call; not judged for cache hits nor while a planted mirror entry is resident). evaluations = responses judged. distinct_nontrivial = distinct hashes of the (result count, execution path) sequence of runs with >1 search.",
+                "(judged for timed responses too unless the engine's own counters report a timeout, an open breaker, worker/queue saturation or a partial result for that call; not judged for cache hits nor while a planted mirror entry is resident). evaluations = responses judged. distinct_nontrivial = distinct hashes of the (result count, execution path) sequence of runs with >1 search. Every eighth run is a race row (shared with C07): one searcher thread || one writer thread under the seeded scheduler (a quarter with a crowded neighbourhood of tombstones, a quarter on a tiny index whose prefix fills it so that the writer's insert compacts tombstones and renumbers the internal slots); every (document, distance) pair the racing search returned must be the distance to some version that document had during the run.",
         "assumptions": ["a tier timeout fires while the tier's blocking search is parked at its first lock acquisition (the engine discards whatever a timed-out tier search returns later, so where inside the search the expiry falls makes no difference to the response; memory safety of mid-search cancellation is C17's subject)", "tokio's blocking pool is not scheduled by E2: the stalled thread is released only after the engine call has returned, and the runtime is dropped (which joins it) before the next step", "recall of the approximate index is not judged (C16 is not applicable)"],
         "expected_probes": ["path_cache_hit", "path_hot_and_cold", "path_hot_only", "path_cold_only", "load_shed", "drain_between_searches", "slow_tier_thread_stalled", "timed_degraded_hot_timeout", "timed_degraded_cold_timeout", "timed_degraded_breaker_open", "drift_repaired_into_canonical_store"],
         "tiers": {"quick": {"runs_per_worker": 1000000, "budget_s": 35}, "thorough": {"runs_per_worker": 10000000, "budget_s": 600}},
